@@ -114,5 +114,35 @@ func TestVerifC16Filter(t *testing.T) {
 			}
 		}
 	}
+	// long-lived handler: many distinct messages, then a retransmission of the first ones
+	// (single thread, one execution): the filter must still know them. 3000 distinct ids
+	// is what a channel handler sees within minutes of a key generation.
+	{
+		seenLong := map[string]int{}
+		f := WithRetransmissionSupport(func(m net.Message) {
+			seenLong[fmt.Sprintf("%s%d", m.TransportSenderID(), m.Seqno())]++
+		})
+		const distinct = 3000
+		for k := uint64(1); k <= distinct; k++ {
+			f(&c16fMsg{"A", k})
+			if k%7 == 0 {
+				f(&c16fMsg{"B", k})
+			}
+		}
+		for _, k := range []uint64{1, 2, 7, 1024, 1025, 2048, distinct} {
+			f(&c16fMsg{"A", k})
+		}
+		r.Eval(1)
+		r.Transition(distinct + 7)
+		for k, n := range seenLong {
+			if n != 1 {
+				r.ViolationMin("filter:long-lived", 1, "filter long-lived handler",
+					fmt.Sprintf("after %d distinct messages a retransmission of %s reached the delegate again (%d deliveries)", distinct, k, n), nil)
+				break
+			}
+		}
+		r.Distinct("long-lived")
+		r.Outcome(fmt.Sprintf("long-lived handler: %d ids", len(seenLong)))
+	}
 	r.Sample(map[string]any{"unit": "filter", "scenarios": scenarios})
 }
